@@ -30,7 +30,7 @@ KEEP_FIELDS = {"ev", "msg", "node", "who", "ok", "err", "found", "why", "streami
 
 TCFG = ("SPECIFICATION TSpec\nCONSTANTS\n  Reqs <- TReqs\n  Kind <- TKind\n  SendBuf <- TSendBuf\n  MaxEpoch <- TMaxEpoch\n"
         "  MaxCrash = 1000\n  CanCancel <- TCancel\n  WithClose = TRUE\n  ChanCap <- TChanCap\n  MaxItems = 1000\n"
-        "  Window = 100000\n  Foreign = FALSE\n  Devs = {}\nINVARIANTS NotDone TraceInv\nCHECK_DEADLOCK FALSE\n")
+        "  Window = 100000\n  Foreign = FALSE\n  Abandons = TRUE\n  Devs = {}\nINVARIANTS NotDone TraceInv\nCHECK_DEADLOCK FALSE\n")
 RE_STEP = re.compile(r'<<"STEP", (\d+)>>')
 
 
@@ -51,16 +51,17 @@ def project(events, node):
     info = next((e for e in events if e["ev"] == "EnvInfo"), None)
     if info is None:
         return None, "no EnvInfo event"
-    if info.get("nodes", 1) != 1:
-        return None, "more than one node (projection of multi-node scenarios is not implemented)"
+    nnodes = info.get("nodes", 1)
     if any(e["ev"] == "CallStart" and e.get("mgr", 0) not in (0, None) for e in events):
         return None, "two managers"
     tok2msg = {}
     kindof = {}
+    sizeof = {}
     for e in events:
         if e["ev"] == "CallStart":
             tok2msg[e["tok"]] = e["msg"]
             kindof[e["msg"]] = e.get("kind", "")
+            sizeof[e["msg"]] = e.get("size", 1)
     reqs, streaming, hasrouter = [], {}, {}
     for e in events:
         if e["ev"] in ("RegisterRouter", "HandOffWait") and e.get("node") == node:
@@ -72,6 +73,9 @@ def project(events, node):
                 streaming[m] = bool(e.get("streaming"))
     if not reqs:
         return None, "no request"
+    if nnodes > 1 and any(streaming.get(m) and sizeof.get(m, 1) > 1 for m in reqs):
+        # the reply channel of such a call is shared with other nodes (Foreign): not projected yet
+        return None, "a streaming call over several nodes"
     kinds = []
     for m in reqs:
         if streaming.get(m):
@@ -85,7 +89,10 @@ def project(events, node):
     for e in events:
         ev = e["ev"]
         if ev in CLIENT and (e.get("node") == node or (ev in ("CallEnd", "CallConfirm") and e.get("node") == 0)):
-            pass
+            if ev == "CallConfirm" and nnodes > 1 and sizeof.get(e.get("msg"), 1) > 1:
+                # a multicast over several nodes logs one confirmation per node without naming it; its calls
+                # are not projected
+                return None, "a send-waiting multicast over several nodes"
         elif ev in PUPPET and e.get("node") == node:
             if ev in ("HStart", "HRelease", "HReturn", "HReply", "HFail"):
                 m = tok2msg.get(e.get("tok"))
@@ -113,6 +120,15 @@ def project(events, node):
             for k, d in (("err", False), ("found", False), ("why", "resp"), ("streaming", False)):
                 rec.setdefault(k, d)
         lines.append(rec)
+    started = False
+    for x in lines:
+        if x["ev"] == "EnvStart":
+            started = True
+        if x["ev"] in ("Dial", "FirstStream"):
+            break
+    if not started:
+        # the node's server was not running when the manager was created
+        lines = [{"ev": "EnvStop", "msg": 0, "node": node}, {"ev": "EnvStopped", "msg": 0, "node": node}] + lines
     hdr = {"ev": "Hdr", "reqs": reqs, "kinds": kinds, "sendbuf": int(info.get("sendbuf", 0)), "maxepoch": nstreams + 2,
            "chancap": 1, "node": node}
     return [hdr] + lines, ""
@@ -150,12 +166,14 @@ def validate_file(allev_path, work, par=8):
         if hdr.get("infeasible"):
             skipped.append((hdr, "infeasible: " + hdr["infeasible"]))
             continue
-        lines, why = project(events, 1)
-        if lines is None:
-            skipped.append((hdr, why))
-            continue
-        hdr = dict(hdr, raw=events)
-        jobs.append((i, hdr, lines))
+        info = next((e for e in events if e["ev"] == "EnvInfo"), {})
+        for node in range(1, int(info.get("nodes", 1)) + 1):
+            lines, why = project(events, node)
+            if lines is None:
+                if why != "no request":
+                    skipped.append((hdr, "node %d: %s" % (node, why)))
+                continue
+            jobs.append((i * 10 + node, dict(hdr, raw=events, node=node), lines))
     acc, rej, states = 0, [], 0
 
     def one(j):
@@ -192,9 +210,9 @@ def main():
         log("%s: %d scenarios accepted, %d rejected, %d skipped, %d states, %.1fs" %
             (prop, acc, len(rej), len(skipped), states, time.time() - t0))
         for hdr, line, why, lines in rej[:10]:
-            log("REJECTED %s:%s at line %d: %s" % (hdr["name"], hdr["kind"], line, why))
+            log("REJECTED %s:%s node %s at line %d: %s" % (hdr["name"], hdr["kind"], hdr.get("node", 1), line, why))
             if os.environ.get("VERIF_KEEP"):
-                keep = "/tmp/chan-%s-%s.ndjson" % (hdr["name"], hdr["kind"])
+                keep = "/tmp/chan-%s-%s-n%s.ndjson" % (hdr["name"], hdr["kind"], hdr.get("node", 1))
                 with open(keep, "w") as f:
                     for x in lines:
                         f.write(json.dumps(x) + "\n")
